@@ -15,8 +15,9 @@
 (*      the implementation really forgot what the model forgot.            *)
 EXTENDS Demux, Json
 
-CONSTANT ProbeMaxLen   \* destructive transitions whose history (including the transition) is at most this long
-                       \* get probe edges
+CONSTANTS ProbeMaxLen,    \* destructive transitions whose history (including the transition) is at most this
+                          \* long get probe edges
+          PktProbeMaxLen  \* the same bound for packet transitions
 
 ExtBoth == {<<TRUE, TRUE>>}
 ExtAll  == {<<TRUE, TRUE>>, <<TRUE, FALSE>>, <<FALSE, TRUE>>, <<FALSE, FALSE>>}
@@ -55,23 +56,30 @@ Destructive ==
   \/ \E m \in Mids : byMid[m] # 0 /\ byMid'[m] # byMid[m]
   \/ \E l \in Ls : route[l].on /\ (~route'[l].on \/ ~(route[l].pts \subseteq route'[l].pts))
 
-\* a probe packet evaluated in the state AFTER the transition
-ProbeRec(s, pt, rid, mid) ==
-  LET e == PktEffect(s, pt, rid, mid)' IN
-  [ cfg |-> [rid |-> cfg.rid, mid |-> cfg.mid],
-    pre |-> hist',
-    act |-> [op |-> "pkt", s |-> s, pt |-> pt, rid |-> rid, mid |-> mid],
-    exp |-> [ delivered |-> [allowed |-> e.last.allowed, rule |-> RuleOf(e.last, hist', mid, closed')] ],
-    ext |-> [ delivered |-> e.last.delivered,
-              bound |-> [x \in Ssrcs |-> e.bySsrc[x] # 0] ],
-    cls |-> ClsOf(e.last, hist'[Len(hist')].op) ]
+\* the transition is a packet that some branch of the chain took: the model says the only thing it may
+\* have changed is the SSRC binding - probe that nothing else (and nothing more) was remembered
+TookPacket == last'.kind = "pkt" /\ last'.by # "none"
 
-EmitProbes ==
-  \A s \in Ssrcs, pt \in Pts, rid \in Rids \cup {0}, mid \in Mids \cup {0} :
-     PrintT(<<"EDGE", ToJson(ProbeRec(s, pt, rid, mid))>>)
+\* a probe packet evaluated in the state AFTER the transition, as a compact tuple:
+\*   <<s, pt, rid, mid, allowed outcomes, rule, model outcome, model bound-vector, by, closedHit, holders,
+\*     provs, identified, unreg>>
+ProbeTuple(s, pt, rid, mid) ==
+  LET e == PktEffect(s, pt, rid, mid)' IN
+  << s, pt, rid, mid, e.last.allowed, RuleOf(e.last, hist', mid, closed'), e.last.delivered,
+     [x \in Ssrcs |-> e.bySsrc[x] # 0], e.last.by, e.last.failed # 0, Cardinality(e.last.holders),
+     Cardinality(e.last.provs), e.last.identified, e.last.unreg >>
+
+ProbeLine ==
+  [ cfg    |-> [rid |-> cfg.rid, mid |-> cfg.mid],
+    pre    |-> hist',
+    after  |-> hist'[Len(hist')].op,
+    probes |-> { ProbeTuple(s, pt, rid, mid) :
+                   s \in Ssrcs, pt \in Pts, rid \in Rids \cup {0}, mid \in Mids \cup {0} } ]
 
 EmitPkt ==
   /\ (IF last'.kind = "pkt" THEN PrintT(<<"EDGE", ToJson(EdgeRec)>>) ELSE TRUE)
-  /\ (IF Destructive /\ Len(hist') <= ProbeMaxLen THEN EmitProbes ELSE TRUE)
+  /\ (IF \/ (Destructive /\ Len(hist') <= ProbeMaxLen)
+         \/ (TookPacket /\ Len(hist') <= PktProbeMaxLen)
+      THEN PrintT(<<"EDGE", ToJson(ProbeLine)>>) ELSE TRUE)
 NoEmit   == TRUE
 =============================================================================
